@@ -180,8 +180,51 @@ def apply(F, S):
             S.bad("ER", "may-be-negative", lab, "%s can be negative (%s)" % (lab, v), loc(fn.span))
 
 
+def er_at_most_one(F, S):
+    """ER <= 1 by the triangle inequality: |x_t - x_{t-n}| <= sum of |successive differences| along a chain from x_{t-n} to x_t.
+    Hypotheses checked on the code: (a) C03-O4 (numerator |reference - input|, denominator a sum from 0 of |previous - element| with
+    `previous` carried through the scan and seeded with the reference); (b) the scan visits the ring in storage order starting
+    after the write cursor: its slice bounds are exactly [cursor', count') followed by [0, cursor') of the updated window, with
+    cursor and counter in lockstep — then the last element visited is the slot just written, i.e. the input (ring lemma)."""
+    import rules_c03
+    import typestate
+    from terms import cu
+    fn = F.method("EfficiencyRatio", "next", trait="Next", next_input="f64")
+    if fn is None:
+        S.bad("ER1", "anchor", "EfficiencyRatio", "EfficiencyRatio::next(f64) not found")
+        return
+    probe = Sink(None, "C07")
+    try:
+        rules_c03.er_facts(F, probe)
+    except (symex.Unsupported, KeyError, IndexError, TypeError) as e:
+        probe.bad_keys.append("C07:unrecognised:%r" % (e,))
+    if probe.bad_keys:
+        S.bad("ER1", "triangle-premise", fn.label, "%s: the numerator / denominator shapes of C03-O4 do not hold (%s), so the triangle inequality has nothing to apply to" % (fn.label, "; ".join(probe.bad_keys)[:200]), loc(fn.span))
+        return
+    ts = typestate.all_structs(F)[0]["EfficiencyRatio"]
+    r = ts.methods.get(fn.label, (None, None))[1] or symex.evaluate(F, fn, canon=True)
+    ex = r["exec"]
+    if not ts.lockstep or not ts.buffers:
+        S.bad("ER1", "triangle-premise", fn.label, "%s: no cursor/counter lockstep over one ring" % fn.label, loc(fn.span))
+        return
+    c, n = ts.lockstep
+    buf = list(ts.buffers)[0]
+    pc_, pn_ = r["heap"].get("self." + c), r["heap"].get("self." + n)
+    spans = []
+    for iv, b in sorted(ex.ivar_bounds.items(), key=lambda kv: kv[0][1]):
+        if b.get("array") == ("self", buf):
+            spans.append((b["start"], b["end"]))
+    want = [(pc_, pn_), (cu(0), pc_)]
+    if spans == want:
+        S.ok("ER1", "%s <= 1: |reference - input| <= sum of |successive differences| from the reference to the input (scan [cursor', count') then [0, cursor'))" % fn.label)
+    else:
+        S.bad("ER1", "scan-order", fn.label, "%s: the volatility scan covers %s; the chain from the reference value to the new input needs [cursor', count') then [0, cursor')"
+              % (fn.label, [(show(a)[:40], show(b)[:40]) for a, b in spans]), loc(fn.span))
+
+
 def run(tier, repo=None, tag="repo"):
     rep = Report("C07", tier)
+    rep.rule("ER1", "EfficiencyRatio <= 1: hypotheses of the triangle inequality (C03-O4 shapes; the scan runs from the slot after the write cursor round to the slot just written)", 1)
     rep.rule("RW", "RSI and MFI are 100*A/(A+B): numerator, denominator and 100*denominator - numerator are sums of non-negative monomials", 3)
     rep.rule("AP", "FastStochastic is 100*(x - lo)/(hi - lo) with lo/hi the window extremes of series bracketing x", 2)
     rep.rule("CC", "SlowStochastic is EMA(FastStochastic) and the EMA step is a convex combination", 2)
@@ -189,13 +232,14 @@ def run(tier, repo=None, tag="repo"):
     F = ir.load("default", repo, tag)
     try:
         apply(F, Sink(rep))
+        er_at_most_one(F, Sink(rep))
     except symex.Unsupported as e:
         rep.violation("C07:unrecognised", "RW", "UNRECOGNISED idiom: %s" % e)
     rep.configs = ["default"]
     rep.functions.update(f.path for f in F.fns if f.self_struct in ("RelativeStrengthIndex", "FastStochastic", "SlowStochastic", "MoneyFlowIndex", "EfficiencyRatio", "ExponentialMovingAverage"))
     rep.explanation = ("the range of each bounded oscillator is a corollary of its documented formula plus sign facts: ratio-of-part-to-whole (monomial sign "
-                       "analysis of the rational normal form), affine position between window extremes, convex combination. NOT decided: EfficiencyRatio <= 1 "
-                       "(triangle inequality over ring contents), MFI's conditioning clause, the contract Minimum.step(v) <= v <= Maximum.step(v)")
+                       "analysis of the rational normal form), affine position between window extremes, convex combination. EfficiencyRatio <= 1 by the triangle inequality, whose hypotheses (chain of "
+                       "successive differences from the reference to the input) are checked (ER1). NOT decided: MFI's conditioning clause, the contract Minimum.step(v) <= v <= Maximum.step(v)")
     rep.assumptions = ["finite positive prices / valid bars, volume >= 0, non-zero denominator (the property's premises)",
                        "Minimum.step(v) <= v and Maximum.step(v) >= v (window semantics, C01 territory)", "MFI running totals non-negative (conditioning premise of the property)"]
     return rep
